@@ -1,6 +1,8 @@
 package symex
 
 import (
+	"strconv"
+	"sort"
 	"fmt"
 	"go/token"
 	"go/types"
@@ -137,6 +139,7 @@ type protoFieldInfo struct {
 	kind       int64
 	list       bool
 	oneof      string
+	number     int // proto field number (0 for a oneof slot)
 }
 
 // jsonName: the json= of the tag, or, when the tag has none, the lowerCamel form of the proto name (protoc's default).
@@ -177,6 +180,9 @@ func protoFieldsOf(n *types.Named) []protoFieldInfo {
 		}
 		parts := strings.Split(pb, ",")
 		fi := protoFieldInfo{}
+		if len(parts) > 1 {
+			fi.number, _ = strconv.Atoi(parts[1])
+		}
 		isEnum := false
 		for _, p := range parts {
 			switch {
@@ -393,24 +399,54 @@ func (ex *Exec) protoMethod(recv iface, name string) *modelClosure {
 		d := recv.v.(protoFieldsV)
 		if name == "Len" || name == "Get" {
 			// the declared fields in order; a message with a oneof also lists its members, which live on wrapper types
-			var idx []int
+			type entry struct {
+				f      protoFieldV
+				number int
+			}
+			var all []entry
+			hasOneof := false
 			for i, fi := range protoFieldsOf(d.st) {
 				if fi.kind == -1 {
-					panic(ex.unsupported("protoreflect Fields() enumeration on a message with a oneof"))
+					hasOneof = true
+					// the members of the oneof: the single field of each wrapper type <Msg>_<Member> of the package
+					scope := d.st.Obj().Pkg().Scope()
+					prefix := d.st.Obj().Name() + "_"
+					for _, n := range scope.Names() {
+						if !strings.HasPrefix(n, prefix) {
+							continue
+						}
+						tn, ok := scope.Lookup(n).(*types.TypeName)
+						if !ok {
+							continue
+						}
+						w, ok := tn.Type().(*types.Named)
+						if !ok || !isOneofWrapperOf(w, d.st) {
+							continue
+						}
+						if ws, ok := w.Underlying().(*types.Struct); !ok || ws.NumFields() != 1 || !strings.Contains(ws.Tag(0), ",oneof") {
+							continue
+						}
+						all = append(all, entry{protoFieldV{st: w, idx: 0}, protoFieldsOf(w)[0].number})
+					}
+					continue
 				}
 				if fi.kind >= 0 {
-					idx = append(idx, i)
+					all = append(all, entry{protoFieldV{st: d.st, idx: i}, fi.number})
 				}
 			}
+			if hasOneof {
+				// descriptor order is declaration order; the FHIR protos number their fields in that order
+				sort.SliceStable(all, func(i, j int) bool { return all[i].number < all[j].number })
+			}
 			if name == "Len" {
-				return mk(func(ex *Exec, fr *frame, pos token.Pos, args []value) value { return ex.k(int64(len(idx))) })
+				return mk(func(ex *Exec, fr *frame, pos token.Pos, args []value) value { return ex.k(int64(len(all))) })
 			}
 			return mk(func(ex *Exec, fr *frame, pos token.Pos, args []value) value {
 				i, ok := args[1].(*smt.Term).ConstInt()
-				if !ok || !i.IsInt64() || i.Int64() < 0 || i.Int64() >= int64(len(idx)) {
+				if !ok || !i.IsInt64() || i.Int64() < 0 || i.Int64() >= int64(len(all)) {
 					panic(ex.unsupported("protoreflect Fields().Get with a symbolic or out-of-range index"))
 				}
-				return iface{pmFieldT, protoFieldV{st: d.st, idx: idx[i.Int64()]}}
+				return iface{pmFieldT, all[i.Int64()].f}
 			})
 		}
 		if name == "ByName" || name == "ByJSONName" {
